@@ -261,6 +261,70 @@ func VerifC13Echo() {
 	verifReach("echo.done")
 }
 
+// VerifC13EchoRdb: the snapshot phase. What link A->B writes to site B for one snapshot unit through
+// the real execBisyncRdbUnit (marker with record type rdb, then DEL / the value's commands / PEXPIRE),
+// rendered as B's replication stream (PX -> PXAT, PEXPIRE -> PEXPIREAT, any subset of the business
+// commands omitted), yields no replay unit in the real parser of link B->A; a client write of site B
+// behind it in the same stream comes through unaltered.
+func VerifC13EchoRdb() {
+	verifClockNs = 1700000000000000000
+	mode := []config.ReplayMode{config.ReplayModeSync, config.ReplayModePipeline, config.ReplayModeParallel}[verifChoose("mode", 3)]
+	siteB := verifNewFake()
+	ab := verifBisyncLink(siteB, "redis-gunyu-checkpoint-bisync:aa01", mode)
+	// a well-formed unit (slot, slot tag) from the link's own builder, its commands replaced by a
+	// snapshot key's replay
+	k := append([]byte("user:"), verifBytes("key", 1)...)
+	units, _ := verifParseUnits(ab, verifResp([]byte("SET"), k, []byte("x")), 1000)
+	verifAssume(len(units) == 1)
+	u := units[0]
+	var cmds []bisyncAofCommand
+	if verifChoose("replace", 2) == 1 {
+		cmds = append(cmds, bisyncAofCommand{Cmd: "del", Args: [][]byte{k}})
+	}
+	switch verifChoose("value", 3) {
+	case 0:
+		cmds = append(cmds, bisyncAofCommand{Cmd: "set", Args: [][]byte{k, verifBytes("val", 1)}})
+	case 1:
+		cmds = append(cmds, bisyncAofCommand{Cmd: "rpush", Args: [][]byte{k, verifBytes("val", 1)}},
+			bisyncAofCommand{Cmd: "rpush", Args: [][]byte{k, verifBytes("val", 1)}})
+	default:
+		cmds = append(cmds, bisyncAofCommand{Cmd: "hset", Args: [][]byte{k, []byte("f"), verifBytes("val", 1)}})
+	}
+	if verifChoose("expiry", 2) == 1 {
+		cmds = append(cmds, bisyncAofCommand{Cmd: "pexpire", Args: [][]byte{k, []byte("5000")}})
+	}
+	u.Commands = cmds
+	u.Digest = bisyncDigest(cmds)
+	mark := len(siteB.log)
+	err := ab.execBisyncRdbUnit(siteB, "rid1", u)
+	verifAssert(err == nil, "C13.echo.commit-error")
+	if err != nil {
+		return
+	}
+	back := verifPropagate(siteB.log, mark, true)
+	hasTail := verifChoose("tail", 2) == 1
+	var tail [][]byte
+	if hasTail {
+		tail = [][]byte{[]byte("SET"), append([]byte("user:"), verifBytes("tkey", 1)...), verifBytes("tval", 1)}
+		back = append(back, verifResp(tail...)...)
+	}
+	ba := verifBisyncLink(verifNewFake(), "redis-gunyu-checkpoint-bisync:bb02", mode)
+	echo, perr := verifParseUnits(ba, back, 5000)
+	verifAssert(perr == nil || errors.Is(perr, io.EOF), "C13.echo.parser-error")
+	if !hasTail {
+		verifAssert(len(echo) == 0, "C13.echo.own-write-sent-back")
+	} else {
+		verifAssert(len(echo) <= 1, "C13.echo.own-write-sent-back")
+		verifAssert(len(echo) >= 1, "C13.foreign.suppressed-after-own-traffic")
+		if len(echo) == 1 {
+			g := echo[0].Commands
+			ok := len(g) == 1 && g[0].Cmd == "set" && len(g[0].Args) == 2 && bytes.Equal(g[0].Args[0], tail[1]) && bytes.Equal(g[0].Args[1], tail[2])
+			verifAssert(ok, "C13.foreign.command-altered")
+		}
+	}
+	verifReach("echo.rdb.done")
+}
+
 // ---------------------------------------------------------------------------
 // C18: cluster-mode units are single-slot or refused.
 
